@@ -1231,3 +1231,76 @@ def _super(I, st, pos, kws, node):
     if len(mro) < 2:
         raise EngineError(f"super(): {cls} has no repository base class")
     return [(st, FunV("super", selfv=selfv, parent=mro[1][2], name="super"))]
+
+
+# ---------------------------------------------------------------- tolerant comparisons / search (assumed NumPy contracts)
+
+def _tol(kws, pos, i_r, i_a):
+    rtol = kws.get("rtol", pos[i_r] if len(pos) > i_r else None)
+    atol = kws.get("atol", pos[i_a] if len(pos) > i_a else None)
+    r = to_real(rtol) if rtol is not None else z3.RealVal("1/100000")
+    a = to_real(atol) if atol is not None else z3.RealVal("1/100000000")
+    return r, a
+
+
+def _close_term(x, y, r, a):
+    d = x - y
+    ab = z3.If(d >= 0, d, -d)
+    ay = z3.If(y >= 0, y, -y)
+    return ab <= a + r * ay
+
+
+@libfn("numpy.isclose")
+def _np_isclose(I, st, pos, kws, node):
+    """ASSUMED: isclose(a, b) = |a - b| <= atol + rtol*|b| (defaults 1e-8, 1e-5), element-wise"""
+    a, b = pos[0], pos[1]
+    r, at = _tol(kws, pos, 2, 3)
+    if isinstance(a, Num) and isinstance(b, Num):
+        return [(st, Num(_close_term(to_real(a), to_real(b), r, at), "bool"))]
+    ra = L.rseq(I, st, a) if isinstance(a, Ref) else None
+    rb = L.rseq(I, st, b) if isinstance(b, Ref) else None
+    n = (ra or rb).length
+    ea = ra.elem if ra else (lambda i: a)
+    eb = rb.elem if rb else (lambda i: b)
+    return [(st, L.new_seq(st, "ndarray", "bool", n, lambda i: Num(_close_term(to_real(ea(i)), to_real(eb(i)), r, at), "bool")))]
+
+
+@libfn("numpy.allclose")
+def _np_allclose(I, st, pos, kws, node):
+    a, b = pos[0], pos[1]
+    r, at = _tol(kws, pos, 2, 3)
+    ra = L.rseq(I, st, a) if isinstance(a, Ref) else None
+    rb = L.rseq(I, st, b) if isinstance(b, Ref) else None
+    if ra is None and rb is None:
+        return [(st, Num(_close_term(to_real(a), to_real(b), r, at), "bool"))]
+    n = (ra or rb).length
+    ea = ra.elem if ra else (lambda i: a)
+    eb = rb.elem if rb else (lambda i: b)
+    i = z3.Int(fresh_name("i"))
+    return [(st, Num(z3.ForAll([i], z3.Implies(z3.And(i >= 0, i < n), _close_term(to_real(ea(i)), to_real(eb(i)), r, at))), "bool"))]
+
+
+@libfn("numpy.searchsorted")
+def _np_searchsorted(I, st, pos, kws, node):
+    """ASSUMED (a sorted ascending): side='left' -> number of elements < v, side='right' -> number of elements <= v"""
+    a, v = pos[0], pos[1]
+    side = kws.get("side", pos[2] if len(pos) > 2 else StrV("left"))
+    ra = L.rseq(I, st, a)
+    if not isinstance(v, Num):
+        raise EngineError("searchsorted of an array of values")
+    left = side.term() == z3.StringVal("left")
+    k = z3.Int(fresh_name("ss"))
+    i = z3.Int(fresh_name("i"))
+    e, vt = ra.elem, to_real(v)
+    below = lambda t: z3.If(left, to_real(e(t)) < vt, to_real(e(t)) <= vt)
+    st.assume(z3.And(k >= 0, k <= ra.length,
+                     z3.ForAll([i], z3.Implies(z3.And(i >= 0, i < ra.length), z3.And(z3.Implies(i < k, below(i)), z3.Implies(i >= k, z3.Not(below(i))))))))
+    return [(st, Num(k, "int"))]
+
+
+@libfn("numpy.full")
+def _np_full(I, st, pos, kws, node):
+    shape, v = pos[0], pos[1]
+    n = to_int(shape.items[0]) if isinstance(shape, TupV) else to_int(shape)
+    vv = Num(to_real(v), "real")
+    return [(st, L.new_seq(st, "ndarray", "real", n, lambda i: vv))]
